@@ -1,19 +1,44 @@
 CHECK = {
     "lean_module": "MidnightZK.Props.C03",
     "harness": "h-c03",
-    "translators": [],
+    "translators": ["c03_consts"],
     "level": "proof",
-    "technique": "Lean 4 proofs of the binding structure of the verifier schedule (instance absorption injective, every element precedes a challenge, exact proof length, canonical scalar decoding) + exhaustive single-element mutation sweep of real proofs/statements/keys",
-    "rule": "real proofs of family members (1-2 proofs each) x every proof element x {other valid value, invalid encoding, non-canonical scalar, flag bit} "
+    "technique": "Lean 4 proofs of the binding structure: (1) verifier schedule (instance absorption injective, every element precedes a challenge, exact proof length, "
+                 "canonical scalar decoding); (2) element-by-element model of what the BLAKE2b and the Poseidon transcript hash absorb (prefix bytes / queue+length padding, "
+                 "32-byte scalars, 48-byte compressed points, 2x7 limbs with identity flag) with injectivity theorems for a fixed schedule, injectivity of proof parsing for a "
+                 "canonical point decoder (instantiated with C16's model of G1Affine::from_compressed); (3) root-counting theorem (Mathlib polynomials) binding a plain instance "
+                 "column through its Lagrange evaluation at x; (4) model of the buffer hashed into VerifyingKey::transcript_repr with an injectivity theorem and a field-coverage "
+                 "theorem over lists regenerated from the Rust sources; + exhaustive single-element mutation sweep of real proofs/statements/keys",
+    "rule": "real proofs of family members (1-2 proofs each, both transcript hashes) x every proof element x {other valid value, invalid encoding, non-canonical scalar, flag bit} "
             "+ bit flips (sampled in quick, all in thorough) + trailing/truncated bytes + every public-input edit class "
             "(value, permutation, drop, append zero, move between columns, drop/extra column, committed instance, swap proofs) "
-            "+ wrong vk (other k / other circuit / other fixed content) + other transcript hash; correspondence lines: proof layout, instance stream, scalar decoder",
-    "explanation": "Theorems: instances_injective, every_element_bound, accepted_length, decode_canonical, decode_rejects_noncanonical over the "
-                   "verifier-schedule model (tied to the code in C01 and here by layout/instance-stream/scalar-decoder correspondence). "
-                   "Oracle: no mutant is accepted and none panics.",
-    "trusted_base": ["collision resistance / random-oracle behaviour of the transcript hash (BLAKE2b, Poseidon) is assumed", "KZG binding (C14) assumed"],
-    "assumptions": ["a changed absorbed element changes all later challenges (ROM)"],
-    "level_text": "Kernel-checked structural binding theorems over the schedule model; the consequence 'every mutant is rejected' is observed by an exhaustive-per-element sweep on real proofs, not proved (needs ROM)",
-    "level_note": "partial: cryptographic binding assumed; structure (what is absorbed, in which order, injectively, with which length) is proved",
+            "+ wrong vk (other k / other circuit / other fixed content) + one vk component changed at a time through VerifyingKey::from_bytes (k byte, each fixed / permutation "
+            "commitment replaced or swapped with its neighbour, constraint system of other circuit parameters) + other transcript hash; "
+            "correspondence lines: proof layout, instance stream, scalar decoder (both readers), point decoder (both readers) on boundary encodings, to_input of points under both hashes, "
+            "`absorbed` = the complete framed stream the real hash state absorbed for every real proof (real CircuitTranscript + prepare over a logging hash state; framing re-derived by "
+            "an independent BLAKE2b state / sponge that must reproduce every squeeze output) vs the model's stream computed from the statement and the PARSED proof bytes, "
+            "`parse` = parse-level verdict (ok / index of the failing element / trailing bytes) of sampled mutants, `vkinput` = the buffer whose BLAKE2b hash is the key's transcript_repr",
+    "explanation": "Theorems (Props/C03.lean): instances_injective, schedule_tail, every_element_bound, accepted_length, decode_canonical, decode_rejects_noncanonical (first round); "
+                   "absorbed_stream_injective (+_any, _poseidon), changed_value_changes_stream, statement_injective, proof_parse_injective (generic over a canonical point decoder), "
+                   "proof_parse_injective_g1_partial (C16 decoder; points with y = 0 excluded), parsed_length, parsed_reencodes, instance_eval_binds (+_lists), "
+                   "instance_eval_pad_invisible, vk_repr_input_injective, vk_repr_covers, blake_framing_constants, poseidon_and_limb_constants. "
+                   "Tie: every `absorbed` line compares the whole absorbed stream of a real verification with the model's (so a dropped/reordered absorb, a changed prefix, encoding, "
+                   "padding or limb layout changes an impl.txt line or makes it MISMATCH); the driver additionally checks on each such line that the values at the absorb events of the "
+                   "verifier schedule are the closed form `stmtVals` that statement_injective is about. The correspondence on prefixes/key/padding is deliberately tight (the harness "
+                   "re-derives the framing with its own copy of the constants; the translator re-reads them into Lean as well). "
+                   "Oracle: no mutant is accepted and none panics; a vk component whose change leaves transcript_repr unchanged is reported.",
+    "trusted_base": ["collision resistance / random-oracle behaviour of the transcript hash (BLAKE2b, Poseidon) is assumed",
+                     "KZG binding (C14) assumed",
+                     "C16's model of G1Affine::from_compressed (imported; tied to the code by C16's and by this check's `point` lines) and its theorem decode_canonical",
+                     "the Debug renderings of the pinned domain / constraint system are opaque byte strings in the model (their field lists are regenerated and checked, their formatting is not modelled)"],
+    "assumptions": ["a changed absorbed stream changes all later challenges (ROM)",
+                    "no point of order two on the BLS12-381 G1 curve (y = 0); carried as the side condition NoOrder2 of the point theorems"],
+    "level_text": "Kernel-checked theorems: the absorbed BLAKE2b byte stream and Poseidon field-element blocks are injective in (vk repr, commitments, public inputs with lengths, proof elements) "
+                  "for a fixed schedule; proof parsing is injective and length-exact; a plain instance column is bound by its evaluation outside <= m-1 points; the transcript_repr hash input "
+                  "is injective in k / commitments / descriptions and covers every verifier-relevant key field. The consequence 'every mutant is rejected' is observed by an "
+                  "exhaustive-per-element sweep on real proofs, not proved (needs ROM + KZG binding)",
+    "level_note": "partial: cryptographic binding (hash ROM, KZG) assumed; points with y = 0 excluded by hypothesis (none exists; unproved); Debug formatting of the pinned constraint system "
+                  "is not modelled (field coverage only: the phase of an advice column that is never queried is not in the key hash when the circuit has no challenge); "
+                  "the link between the field-level instance_eval_binds and the Nat-level executable C02.instanceEvals is by correspondence (C02), not by proof",
     "timeout": {"quick": 1500, "thorough": 10800, "search": 2400},
 }
